@@ -78,8 +78,10 @@ class AsyncEngine(BaseEngine):
     async def _trigger(self, trigger_data: TriggerData):
         executed = False
         if trigger_data is self._initial_trigger:
-            transition = self._initial_transition(trigger_data)
-            await self._activate(trigger_data, transition)
+            # Nothing to activate if a state was stored on the model in the meantime.
+            if self.sm.current_state_value is None:
+                transition = self._initial_transition(trigger_data)
+                await self._activate(trigger_data, transition)
             return self._sentinel
 
         state = self.sm.current_state
